@@ -1,0 +1,169 @@
+// Copyright 2026 The Jujutsu Authors
+//
+// Licensed under the Apache License, Version 2.0 (the "License");
+// you may not use this file except in compliance with the License.
+// You may obtain a copy of the License at
+//
+// https://www.apache.org/licenses/LICENSE-2.0
+//
+// Unless required by applicable law or agreed to in writing, software
+// distributed under the License is distributed on an "AS IS" BASIS,
+// WITHOUT WARRANTIES OR CONDITIONS OF ANY KIND, either express or implied.
+// See the License for the specific language governing permissions and
+// limitations under the License.
+
+//! Observation and fault-injection points for external runtime monitors.
+//!
+//! This module is compiled only with `--cfg jj_vcs_jj_verif`. Without a
+//! handler or any of the `JJ_VERIF_*` environment variables, a point does
+//! nothing.
+
+
+use std::fmt::Display;
+use std::io::Write as _;
+use std::sync::Arc;
+use std::sync::OnceLock;
+use std::sync::RwLock;
+use std::sync::atomic::AtomicU64;
+use std::sync::atomic::Ordering;
+
+/// In-process handler called with `(label, detail)` at every point.
+pub type Handler = dyn Fn(&str, &str) + Send + Sync;
+
+static HANDLER: RwLock<Option<Arc<Handler>>> = RwLock::new(None);
+static SEQ: AtomicU64 = AtomicU64::new(0);
+
+struct EnvConfig {
+    trace: Option<std::path::PathBuf>,
+    crash_at: Option<u64>,
+    crash_filter: Option<String>,
+    no_lock: bool,
+    delay_seed: Option<u64>,
+    run_at: Option<(String, String)>,
+}
+
+fn env_config() -> &'static EnvConfig {
+    static CONFIG: OnceLock<EnvConfig> = OnceLock::new();
+    CONFIG.get_or_init(|| EnvConfig {
+        trace: std::env::var_os("JJ_VERIF_TRACE").map(Into::into),
+        crash_at: std::env::var("JJ_VERIF_CRASH_AT")
+            .ok()
+            .and_then(|s| s.parse().ok()),
+        crash_filter: std::env::var("JJ_VERIF_CRASH_FILTER").ok(),
+        no_lock: std::env::var_os("JJ_VERIF_NO_LOCK").is_some_and(|v| v == "1"),
+        delay_seed: std::env::var("JJ_VERIF_DELAY_SEED")
+            .ok()
+            .and_then(|s| s.parse().ok()),
+        run_at: std::env::var("JJ_VERIF_RUN_AT").ok().and_then(|s| {
+            let (label, command) = s.split_once('=')?;
+            Some((label.to_owned(), command.to_owned()))
+        }),
+    })
+}
+
+/// Installs (or removes) the in-process handler.
+pub fn set_handler(handler: Option<Arc<Handler>>) {
+    *HANDLER.write().unwrap() = handler;
+}
+
+/// Whether file locks should be skipped (models a file system on which
+/// locking is ineffective).
+pub fn locks_disabled() -> bool {
+    env_config().no_lock || LOCKS_DISABLED.load(Ordering::SeqCst) != 0
+}
+
+static LOCKS_DISABLED: AtomicU64 = AtomicU64::new(0);
+
+/// In-process switch equivalent to `JJ_VERIF_NO_LOCK=1`.
+pub fn set_locks_disabled(disabled: bool) {
+    LOCKS_DISABLED.store(u64::from(disabled), Ordering::SeqCst);
+}
+
+/// An observation point. `label` names the site, `detail` the object.
+pub fn point(label: &str, detail: &dyn Display) {
+    let handler = HANDLER.read().unwrap().clone();
+    let config = env_config();
+    if handler.is_none()
+        && config.trace.is_none()
+        && config.crash_at.is_none()
+        && config.delay_seed.is_none()
+        && config.run_at.is_none()
+    {
+        return;
+    }
+    let detail = detail.to_string();
+    if let Some((run_label, command)) = &config.run_at
+        && run_label == label
+    {
+        // Lets a monitor act while this process is parked at a point (e.g.
+        // move a remote ref while a push is in flight).
+        std::process::Command::new("sh")
+            .arg("-c")
+            .arg(command)
+            .env("JJ_VERIF_POINT_DETAIL", &detail)
+            .env_remove("JJ_VERIF_RUN_AT")
+            .status()
+            .ok();
+    }
+    if let Some(handler) = handler {
+        handler(label, &detail);
+    }
+    let counted = config
+        .crash_filter
+        .as_deref()
+        .is_none_or(|prefix| label.starts_with(prefix));
+    if !counted {
+        return;
+    }
+    let seq = SEQ.fetch_add(1, Ordering::SeqCst) + 1;
+    if let Some(path) = &config.trace {
+        let line = format!("{} {seq} {label} {detail}\n", std::process::id());
+        if let Ok(mut file) = std::fs::OpenOptions::new()
+            .create(true)
+            .append(true)
+            .open(path)
+        {
+            file.write_all(line.as_bytes()).ok();
+        }
+    }
+    if config.crash_at == Some(seq) {
+        // Die the way a killed process does: no unwinding, no destructors, no
+        // temp-file cleanup.
+        std::process::abort();
+    }
+    if let Some(seed) = config.delay_seed {
+        // Deterministic pseudo-random short sleep for free-running stress.
+        let mut x = seed ^ seq.wrapping_mul(0x9E37_79B9_7F4A_7C15) ^ u64::from(std::process::id());
+        x ^= x >> 30;
+        x = x.wrapping_mul(0xBF58_476D_1CE4_E5B9);
+        x ^= x >> 27;
+        if x % 4 == 0 {
+            std::thread::sleep(std::time::Duration::from_micros(x % 2000));
+        } else if x % 4 == 1 {
+            std::thread::yield_now();
+        }
+    }
+}
+
+/// Guard returned by [`scope()`]; fires the `<label>.after` point when dropped.
+pub struct Scope {
+    label: &'static str,
+    detail: String,
+}
+
+/// Fires `<label>.before` now and `<label>.after` when the returned guard is
+/// dropped (not while unwinding).
+#[must_use]
+pub fn scope(label: &'static str, detail: &dyn Display) -> Scope {
+    let detail = detail.to_string();
+    point(&format!("{label}.before"), &detail);
+    Scope { label, detail }
+}
+
+impl Drop for Scope {
+    fn drop(&mut self) {
+        if !std::thread::panicking() {
+            point(&format!("{}.after", self.label), &self.detail);
+        }
+    }
+}
